@@ -162,6 +162,35 @@ def accept_paths(P, f, accept="true"):
                     tail_atom = ("const-true", None)
                 else:
                     tail_atom = tail_of(f._origin_def(best, slot, 10, {slot}))
+            if accept == "some" and val == "call" and slot is None:
+                # `inner_option.map(render)` returned: Some exactly when the Option it is applied to is — and that one was assigned Some(..) / None by a
+                # spliced-in helper on this very path
+                cexit = f.call_at(b)
+                if cexit is not None and cexit.name in ("map", "cloned", "copied", "as_ref", "as_deref", "inspect") and cexit.args:
+                    L_ = (op_place(cexit.args[0]) or {}).get("l")
+                    on_path = {blk_: i_ for i_, (blk_, _) in enumerate(path)}
+                    hops_ = 0
+                    verdict_ = None
+                    while L_ is not None and hops_ < 6:
+                        hops_ += 1
+                        best = None
+                        for d_ in f.defs.get(L_, []):
+                            if d_[0] in ("stmt", "call") and d_[1] in on_path and (best is None or on_path[d_[1]] > on_path[best[1]]):
+                                best = d_
+                        if best is None or best[0] != "stmt":
+                            break
+                        rv_ = best[3]
+                        if rv_.get("k") == "aggr" and rv_.get("variant") in ("Some", "None"):
+                            verdict_ = rv_["variant"]
+                            break
+                        if rv_.get("k") == "use" and op_place(rv_["op"]) is not None and not op_place(rv_["op"]).get("p"):
+                            L_ = op_place(rv_["op"])["l"]
+                            continue
+                        break
+                    if verdict_ == "None":
+                        continue
+                    if verdict_ == "Some":
+                        tail_atom = ("const-true", None)
             atoms = {"len": [], "seg": {}, "args": [], "other": [], "kind": [], "opaque_value": acc is None and tail_atom is None}
             if tail_atom is not None and tail_atom[0] == "const-true":
                 pass
